@@ -185,11 +185,11 @@ def main(argv):
     c.sample({"line": lines[200]})
     c.sample({"line": lines[-1]})
 
-    # ---- correspondence: extracted model vs implementation
+    # ---- correspondence: extracted model vs implementation (first line: the regenerated constants vs the compiled ones)
     if drv is None:
         c.broken.append("extraction/driver build failed: " + dlog[-600:])
     else:
-        correspond(c, "murmur model vs util/murmur_hash.cc + HashCallback", drv, impl, lines)
+        correspond(c, "murmur model vs util/murmur_hash.cc + HashCallback", drv, impl, ["C"] + lines)
 
     # ---- direct oracle: implementation vs the independent Python reference
     rc, out, err = run_lines(impl, lines)
